@@ -92,16 +92,16 @@ def run(ctx):
     ctx.floor("sig-table", len(sigs), 26, "builtin signatures extracted")
     ctx.analysed["signatures"] = {k: [[B.show(x) for x in v[1]], B.show(v[2]) if v[2] is not None else None] for k, v in sigs.items()}
 
-    check_validate_first(ctx, lib, sigs)
-    check_arity(ctx, lib)
-    check_positions(ctx, lib)
-    check_is_valid(ctx, lib)
+    ctx.attempt("check_validate_first", check_validate_first, ctx, lib, sigs)
+    ctx.attempt("check_arity", check_arity, ctx, lib)
+    ctx.attempt("check_positions", check_positions, ctx, lib)
+    ctx.attempt("check_is_valid", check_is_valid, ctx, lib)
     n = check_accessors(ctx, lib, "accessor-table")
     ctx.floor("accessor-table", n, 100, "accessor/predicate decision paths walked")
-    check_provenance(ctx, lib)
-    check_by_functions(ctx, lib)
-    check_unknown_function(ctx, lib)
-    check_result_types(ctx, lib, sigs)
+    ctx.attempt("check_provenance", check_provenance, ctx, lib)
+    ctx.attempt("check_by_functions", check_by_functions, ctx, lib)
+    ctx.attempt("check_unknown_function", check_unknown_function, ctx, lib)
+    ctx.attempt("check_result_types", check_result_types, ctx, lib, sigs)
 
 
 # ---------------------------------------------------------------------------------------------
@@ -526,6 +526,32 @@ def check_by_functions(ctx, lib):
                                         if s["k"] == "assign" and s["rv"]["k"] == "agg" and s["rv"].get("adt") == "variable::JmespathType":
                                             proms.add(s["rv"]["variant"])
         ctx.check(proms == {"String", "Number"}, rule, f"{ty}:first-kind", f"{ty}: the first mapped value must be a string or a number (tests against {sorted(proms)})", b.span)
+        # an Ok result is reachable only (a) on the empty-array branch or (b) after the first element's key passed its kind test
+        oks, opaque = RT.ok_values(b)
+        vals_t = {("view", "array", ("elem", ("param", 2), 0))}
+        empty_edges = []
+        first_ok_edges = []
+        first_res = lambda x: x[0] == "call" and x[1] == "interpreter::interpret" and x[3] == first_blk
+        for blk, t in br.switches():
+            be = br.bool_edges(blk)
+            if not be:
+                continue
+            for c in br.cond(blk):
+                neg = False
+                while c[0] == "un" and c[1] == "Not":
+                    c = c[2]
+                    neg = not neg
+                if c[0] == "call" and c[1].endswith("::is_empty") and set(c[2][0]) == vals_t:
+                    empty_edges.append((blk, be[1] if neg else be[0]))
+                if c[0] == "call" and c[1] in ("std::cmp::PartialEq::ne", "std::cmp::PartialEq::eq"):
+                    sides = [set(c[2][0]), set(c[2][1])]
+                    if any(any(x[0] == "call" and x[1] == "variable::Variable::get_type" and any(first_res(y) for y in x[2][0]) for x in s_) for s_ in sides) and \
+                            any(any(x[0] == "promoted" for x in s_) for s_ in sides):
+                        is_ne = c[1].endswith("::ne") != neg
+                        first_ok_edges.append((blk, be[1] if is_ne else be[0]))
+        bad_ok = [blk for blk, _ in oks if not (any(edge_dominates(b, e, blk) for e in empty_edges) or (first_ok_edges and edges_dominate(b, first_ok_edges, blk)))]
+        ctx.check(bool(oks) and bool(empty_edges) and not bad_ok, rule, f"{ty}:no-unchecked-result",
+                  f"{ty}: a result is produced only for an empty array or after the first key passed its kind test ({len(oks)} Ok sites, unchecked: {bad_ok})", b.span)
     ctx.floor(rule, n, 6, "interpret() sites in by-functions")
 
 
